@@ -883,6 +883,7 @@ def run(ctx: Ctx) -> Outcome:
     # ---- (4) _Specification, (5) live model incl. save / reload
     spec_part(ctx, out, ask, capellambse, helpers, _descriptors, etree, xml_legal)
     live_part(ctx, out, capellambse, helpers, pvmt_config, xml_legal, monitor_expect, py_equal, pools, enum_pool)
+    reload_part(ctx, out, capellambse, pvmt_config, monitor_expect, py_equal, pools, enum_pool)
 
     # ---- (6) informational: the latent EnumPOD case outside the quantifier (a plain Enum without the stringy mixin)
     class _Plain(enum.Enum):
@@ -1303,6 +1304,196 @@ def live_part(ctx, out, capellambse, helpers, pvmt_config, xml_legal, monitor_ex
             out.traces_validated += 1
             out.hit(f"reload.{kind}")
         shutil.rmtree(dst, ignore_errors=True)
+
+
+# ---------------------------------------------------------------- save and reload on every corpus model
+
+NL_FAMILY = ["\n", "\r\n", "\r", "\t", "\x85", "\u2028", "\u2029"]
+
+
+def nl_values(rng, n: int) -> list[str]:
+    """string values with newline-family characters (LF, CRLF, CR, TAB, NEL, LS, PS) at the start, in the middle, at
+    the END, doubled and alone — what line-oriented serialisers get wrong — plus `n` random mixtures"""
+    fixed = []
+    for nl in NL_FAMILY:
+        fixed += [nl, "a" + nl, nl + "a", "a" + nl + "b", "a" + nl + nl, nl + nl + "a", " " + nl + " ", "x = 1" + nl + "  y" + nl]
+    rnd = ["".join(rng.choice(NL_FAMILY + ["a", " ", "é", "<", "&", "]]>"]) for _ in range(rng.randint(1, 6))) for _ in range(n)]
+    return fixed + rnd
+
+
+def nl_class(v: str) -> str:
+    if v and v[-1] in "\n\r\x85\u2028\u2029":
+        return "trailing-linebreak"
+    if "\r" in v:
+        return "cr"
+    if any(c in v for c in "\x85\u2028\u2029"):
+        return "unicode-linebreak"
+    if "\n" in v:
+        return "inner-newline"
+    if "\t" in v:
+        return "tab"
+    return "plain"
+
+
+def corpus_models() -> list:
+    base = common.REPO / "tests" / "data"
+    return sorted(base.rglob("*.aird"))
+
+
+def reload_part(ctx, out, capellambse, pvmt_config, monitor_expect, py_equal, pools, enum_pool):
+    """For every corpus model (quick: a seeded choice that always has one with specifications; thorough: all): every
+    writable POD slot of every class that has an instance in the model gets a valid value (string-like slots: half of
+    them newline-family values), every specification gets plain bodies with newline-family values and a linked text;
+    then save(), reload, and every value and its XML text must be what it was before saving."""
+    from capellambse.model import _pods
+
+    rng = ctx.rng
+    allm = corpus_models()
+    with_spec = [p for p in allm if "melodymodel" in p.parts]
+    if ctx.thorough:
+        chosen = allm
+    else:
+        first = rng.choice(with_spec) if with_spec else None
+        rest = [p for p in allm if p != first]
+        chosen = ([first] if first else []) + rng.sample(rest, min(2, len(rest)))
+    dist = {"models": [], "pod_values": 0, "pod_nl_values": 0, "spec_bodies": 0, "linked_texts": 0, "classes_with_instances": 0, "skipped_models": []}
+    for mi, aird in enumerate(chosen):
+        rel = str(aird.relative_to(common.REPO / "tests" / "data"))
+        dst = ctx.scratch / f"reload{mi}"
+        shutil.copytree(aird.parent, dst)
+        kw = {}
+        if aird.parent.name == "Library Project":  # references the library next to it
+            lib = ctx.scratch / f"reload{mi}-lib"
+            shutil.copytree(aird.parent.parent / "Library Test", lib)
+            kw = {"resources": {"Library Test": str(lib)}}
+        try:
+            model = capellambse.MelodyModel(str(dst / aird.name), **kw)
+        except Exception as e:  # a corpus model the library cannot open as is: not this property's concern
+            dist["skipped_models"].append(f"{rel}: {type(e).__name__}")
+            shutil.rmtree(dst, ignore_errors=True)
+            continue
+        dist["models"].append(rel)
+        by_type: dict[type, list] = {}
+        try:
+            everything = list(model.search())
+        except Exception as e:
+            dist["skipped_models"].append(f"{rel}: search: {type(e).__name__}")
+            everything = []
+        for obj in everything:
+            by_type.setdefault(type(obj), []).append(obj)
+        planned = []
+        nl_pool = nl_values(rng, ctx.pick(10, 60))
+        for cls in sorted(by_type, key=lambda c: f"{c.__module__}.{c.__qualname__}"):
+            objs = by_type[cls]
+            slots = []
+            for name in sorted(dir(cls)):
+                d = getattr(cls, name, None)
+                if isinstance(d, _pods.BasePOD) and type(d).__name__ in KINDS and d.writable:
+                    slots.append((name, d))
+            if not slots:
+                continue
+            dist["classes_with_instances"] += 1
+            for obj in rng.sample(objs, min(len(objs), ctx.pick(1, 3))):
+                for name, d in slots:
+                    kind = KINDS[type(d).__name__]
+                    if kind in ("string", "html") and rng.random() < 0.5:
+                        label, v = "newline-family", rng.choice(nl_pool)
+                        dist["pod_nl_values"] += 1
+                    else:
+                        pool = enum_pool(d) if kind == "enum" else pools[kind]
+                        cands = [(lab, x) for lab, x in pool if monitor_expect(kind, d, x)[0] and not (isinstance(x, str) and len(x) > 3000)]
+                        label, v = rng.choice(cands)
+                    valid, want, is_default = monitor_expect(kind, d, v)
+                    if not valid:
+                        continue
+                    rp = {"kind": "reload", "model": rel, "class": f"{cls.__module__}.{cls.__qualname__}", "pyname": name, "value": repr(v)[:200]}
+                    try:
+                        setattr(obj, name, v)
+                        got = getattr(obj, name)
+                    except Exception as e:
+                        out.find(f"pod.live|valid-value-fails|{kind}:{label}", f"{rel}: {cls.__name__}.{name} = {v!r}: {type(e).__name__}: {e}", rp)
+                        continue
+                    if not py_equal(kind, got, want):
+                        out.find(f"pod.get|read-back-differs|{kind}:{label}", f"{rel}: {cls.__name__}.{name} = {v!r} read back {got!r}", rp)
+                    planned.append((obj.uuid, cls, name, kind, label, v, want, obj._element.get(d.attribute), rp))
+                    dist["pod_values"] += 1
+                    out.case(("reload", rel, obj.uuid, name, repr(v)[:60]), nontrivial=not is_default)
+        # specifications: plain bodies under fresh and existing keys, and a linked text
+        spec_planned = []
+        owners = []
+        for obj in everything:
+            if next(obj._element.iterchildren("ownedSpecification"), None) is not None and hasattr(type(obj), "specification"):
+                owners.append(obj)
+        rng.shuffle(owners)
+        lt_targets = [(o.uuid, o.name) for o in everything[:400] if getattr(o, "name", None) and isinstance(o.name, str) and o.name.strip() == o.name][:8]
+        for oi, own in enumerate(owners[: ctx.pick(12, 40)]):
+            try:
+                spec = own.specification
+            except AttributeError:
+                continue
+            keys = ["python", "ocl"] + [k for k in list(spec) if k and k != "capella:linkedText"][:1]
+            for k in keys[: 1 + oi % 3]:
+                v = rng.choice(nl_pool)
+                rp = {"kind": "reload-spec", "model": rel, "key": k, "value": v}
+                try:
+                    spec[k] = v
+                    got = str(spec[k])
+                except Exception as e:
+                    out.find(f"spec.set|valid-value-fails|{nl_class(v)}", f"{rel}: specification[{k!r}] = {v!r}: {type(e).__name__}: {e}", rp)
+                    continue
+                if got != v:
+                    out.find("spec.set|plain-body-read-back-differs", f"{rel}: specification[{k!r}] = {v!r} read back {got!r}", rp)
+                spec_planned.append((own.uuid, k, v, got, rp, nl_class(v)))
+                dist["spec_bodies"] += 1
+                out.case(("reload-spec", rel, own.uuid, k, v))
+            if lt_targets:
+                v, _ = rand_linked_text(rng, lt_targets, False)
+                v = v + rng.choice(["", "\n", " \n", "\t", "\u2028", "x\x85"])
+                rp = {"kind": "reload-spec", "model": rel, "key": "LinkedText", "value": v}
+                try:
+                    spec["LinkedText"] = v
+                    got = str(spec["LinkedText"])
+                except Exception as e:
+                    out.find("spec.linkedtext|valid-value-fails|interleaved", f"{rel}: specification['LinkedText'] = {v!r}: {type(e).__name__}: {e}", rp)
+                    continue
+                spec_planned.append((own.uuid, "LinkedText", v, got, rp, "linkedtext:" + nl_class(v)))
+                dist["linked_texts"] += 1
+                out.case(("reload-lt", rel, own.uuid, v))
+        try:
+            model.save()
+            model2 = capellambse.MelodyModel(str(dst / aird.name), **kw)
+        except Exception as e:
+            out.find("pod.reload|save-or-reload-failed", f"{rel}: after assigning valid values to {len(planned)} typed attributes and "
+                     f"{len(spec_planned)} specification bodies: {type(e).__name__}: {str(e)[:200]}", {"kind": "reload", "model": rel})
+            shutil.rmtree(dst, ignore_errors=True)
+            continue
+        for uuid, cls, name, kind, label, v, want, xml, rp in planned:
+            try:
+                o2 = model2.by_uuid(uuid)
+                d = getattr(type(o2), name)
+                got = getattr(o2, name)
+                xml2 = o2._element.get(d.attribute)
+            except Exception as e:
+                got, xml2 = e, None
+            if isinstance(got, Exception) or not py_equal(kind, got, want) or xml2 != xml:
+                c = nl_class(v) if isinstance(v, str) and nl_class(v) != "plain" else label
+                out.find(f"pod.reload|value-differs-after-save-reload|{kind}:{c}", f"{rel}: {cls.__name__}.{name} = {v!r}: XML before save {xml!r}, "
+                         f"after reload {xml2!r}, value {got!r}", rp)
+            out.traces_validated += 1
+            out.hit(f"reload.{kind}")
+        for uuid, k, v, before, rp, c in spec_planned:
+            try:
+                got = str(model2.by_uuid(uuid).specification[k])
+            except Exception as e:
+                got = f"{type(e).__name__}: {e}"
+            if got != before:
+                out.find(f"spec.reload|body-differs-after-save-reload|{c}", f"{rel}: specification[{k!r}] = {v!r} read {before!r} before save() and "
+                         f"{got!r} after save and reload", rp)
+            out.traces_validated += 1
+            out.hit("reload.spec-linkedtext" if k == "LinkedText" else "reload.spec-body")
+        shutil.rmtree(dst, ignore_errors=True)
+        shutil.rmtree(ctx.scratch / f"reload{mi}-lib", ignore_errors=True)
+    out.extra["reload_distribution"] = dist
 
 
 KINDS = {"StringPOD": "string", "HTMLStringPOD": "html", "BoolPOD": "bool", "IntPOD": "int", "FloatPOD": "float", "DatetimePOD": "datetime",
